@@ -121,6 +121,16 @@ def parseRun (ts : List String) : Option Run :=
 
 def isAsync (c : String) : Bool := c.startsWith "ASYNC "
 
+/-- SPEC cases: operators outside the Lean model (joins, collector-backed streams, timeseries / tsquery pipelines,
+    JSON providers, FromIterator); decided by the spec predicate on the real code only -/
+def isSpecOnly (c : String) : Bool := c.startsWith "SPEC "
+
+/-- the runs of a case without parsing its pipeline -/
+def parseRunsOnly (c : String) : Option (List Run) :=
+  match splitAt "||" (words c) with
+  | _ :: runs => runs.mapM parseRun
+  | [] => none
+
 /-- "pipe || run || run" (an "ASYNC " prefix marks pipelines with Buffered / concurrent stages) -/
 def parseCase (c : String) : Option (Pipe × List Run) :=
   match splitAt "||" (words (if isAsync c then (c.drop 6).toString else c)) with
@@ -203,6 +213,8 @@ structure ObsRun where
   pre : Nat
   events : List (Nat × String)
   leak : Nat := 0
+  /-- SPEC cases: what the same case delivers without the fault (Go vs Go) -/
+  ff : Option String := none
 
 def parseObsRun (s : String) : Option ObsRun :=
   match splitAt "|" (words s) with
@@ -215,16 +227,18 @@ def parseObsRun (s : String) : Option ObsRun :=
         | _ => none)
     let (ok, cls) := if res == "ok" then (true, "ok") else (false, (res.drop 4).toString)
     pure { ok := ok, cls := cls, delivered := del, calls := calls, pre := pre, events := events }
-  | [[res, del], [calls, pre], [evs], [leak]] => do
+  | [[res, del], [calls, pre], [evs], extras] => do
     let calls ← (calls.drop 6).toString.toNat?
     let pre ← (pre.drop 4).toString.toNat?
-    let leak ← (leak.drop 5).toString.toNat?
+    -- extra key=value tokens: leak=<goroutines / file descriptors left>, ff=<fault-free delivery>
+    let leak := (extras.filterMap (fun e => if e.startsWith "leak=" then (e.drop 5).toString.toNat? else none)).sum
+    let ff := (extras.filterMap (fun e => if e.startsWith "ff=" then some (e.drop 3).toString else none)).head?
     let events ← if evs == "-" then some [] else
       (evs.splitOn ";").mapM (fun e => match e.splitOn ":" with
         | [r, es] => r.toNat?.map (fun r => (r, es))
         | _ => none)
     let (ok, cls) := if res == "ok" then (true, "ok") else (false, (res.drop 4).toString)
-    pure { ok := ok, cls := cls, delivered := del, calls := calls, pre := pre, events := events, leak := leak }
+    pure { ok := ok, cls := cls, delivered := del, calls := calls, pre := pre, events := events, leak := leak, ff := ff }
   | _ => none
 
 def parseObs (s : String) : Option (List ObsRun) :=
